@@ -133,6 +133,18 @@ def check(rep, tier):
     except Exception as e:
         rec["error"] = e
     recs.append(rec)
+    # 2D, jacket, tall narrow vial: strong radial gradients (the frozen fraction is a VOLUME average; the core freezes last)
+    try:
+        progJ = dict(start=20, end=-50, rate=2 / 60, holds=[], t_tot=3600.0, dt=1.0)
+        SJ = sr.make(dim="spatial_2D", conf="jacket", height=0.08, diameter=0.04, K=300, prog=progJ)
+        dtJ, _ = sr.step_info(SJ); progJ["t_tot"] = float(int(dtJ * 9800))
+        SJ = sr.make(dim="spatial_2D", conf="jacket", height=0.08, diameter=0.04, K=300, prog=progJ)
+        dtJ, nJ = sr.step_info(SJ)
+        recJ = dict(label="spatial_2D/jacket h=0.08 d=0.04 K=300 (tall narrow vial)", dim="spatial_2D", conf="jacket", S=SJ, dt=dtJ, nsteps=nJ, prog=progJ, error=None)
+        sr.run(SJ)
+    except Exception as e:
+        recJ["error"] = e
+    recs.append(recJ)
     # the same object run again with ANOTHER program: results (or the exception) are those of the program configured now
     oc = impl.opcond_mod()
     for dim, h, K in (("homogeneous", 0.01, 50), ("spatial_1D", 0.05, 200)):
